@@ -160,18 +160,24 @@ class Blake2(Blake):
         g = self.padmethod.iterblocks(M,padding=padding)
         try:
             blk = next(g)
+            cnt = self.padmethod.bitcnt
         except StopIteration:
             blk = None
         while (blk):
             try: #forsee last block:
                 nextblk = next(g)
+                nextcnt = self.padmethod.bitcnt
             except StopIteration:
                 # set f0 finalization flag (blk is last)
                 self.f[0]= -1
                 nextblk = None
+                nextcnt = None
+            # counter of the block being compressed (not of the look-ahead):
+            self.t = cnt
             # input words are now in little-endian:
             yield Bits(blk,bitorder=1).split(self.wsize)
             blk = nextblk
+            cnt = nextcnt
 
     def __call__(self,M,**kargs):
         self.initstate(**kargs)
@@ -199,7 +205,7 @@ class Blake2(Blake):
             v[0:8] = self.H
             v[8:12] = self.IV[0:4]
             # counter of *bytes*, in little-endian
-            t = Bits(self.padmethod.bitcnt//8,2*self.wsize).split(self.wsize)
+            t = Bits(self.t//8,2*self.wsize).split(self.wsize)
             v[12:14] = Poly(t,self.wsize)^self.IV[4:6]
             v[14:16] = self.f^self.IV[6:8]
             for r in range(self.rounds):
